@@ -1003,6 +1003,8 @@ func (w *xlWorld) translateFunc(repo string, p *xlPkg, f *xlFunc, fd *ast.FuncDe
 	fn := p.info.Defs[fd.Name].(*types.Func)
 	sig := fn.Type().(*types.Signature)
 	domMode := w.dom && f.External == ""
+	xlPlainMode = domMode && f.Plain
+	defer func() { xlPlainMode = false }()
 	x := &xl{w: w, p: p, f: f, fd: fd, names: map[types.Object]string{}, used: map[string]bool{}, flat: map[string]string{},
 		opaque: map[string]string{}, touched: map[string]bool{}, optVars: map[types.Object]bool{}, paramObjs: map[types.Object]bool{},
 		inGroup: map[*types.Func]bool{}, dispatch: map[string]string{}}
